@@ -261,7 +261,8 @@ func (m *Member) computeMyTag(topic topic) tag {
 func (m *Member) HandleMessage(from uint16, msg []byte) {
 	msgType, tag, peers, err := decodeTagAndMembershipList(msg)
 	if err != nil {
-		m.Logger.Warnf("Failed decoding message (%s) from %d: %v", hex.EncodeToString(msg), from)
+		m.Logger.Warnf("Failed decoding message (%s) from %d: %v", hex.EncodeToString(msg), from, err)
+		return
 	}
 
 	v, exists := m.tagsToIDsAndTopics.Load(tag)
@@ -342,8 +343,12 @@ func encodeTagAndMembershipList(msgType msgType, tag tag, peers []uint16) []byte
 }
 
 func decodeTagAndMembershipList(msg []byte) (msgType, tag, []uint16, error) {
-	if len(msg) < 32 {
+	if len(msg) < 33 {
 		return 0, "", nil, fmt.Errorf("message too small (%d bytes), should be 32 bytes", len(msg))
+	}
+
+	if (len(msg)-33)%2 != 0 {
+		return 0, "", nil, fmt.Errorf("membership list of %d bytes is not a sequence of 2 byte identifiers", len(msg)-33)
 	}
 
 	msgType := msgType(msg[0])
